@@ -314,6 +314,10 @@ def run_case(case):
                     return httpx.Response(200, text="<html>ok</html>")
                 if b200 == "empty":
                     return httpx.Response(200)
+                if b200 == "foreign":   # a JSON-RPC response, but not to this request
+                    return httpx.Response(200, json={"jsonrpc": "2.0", "id": "zz-foreign", "result": {"tag": "foreign"}})
+                if b200 == "ack":       # a plain acknowledgement document
+                    return httpx.Response(200, json={"status": "ok"})
                 return httpx.Response(200, json=answer_msg(r, "body"))
             if k == "202":
                 return httpx.Response(202, text="Accepted")
